@@ -397,6 +397,39 @@ def translate_functions(path):
     return "\n".join(L) + "\n", errors, done
 
 
+# ----------------------------------------------------------------------------- public entry points
+C_ENTRY_RE = (r"reb_rotation_(?!to_mat4df)\w+|reb_rotation_to_mat4df|reb_vec3d_\w+|reb_particle_irotate|reb_simulation_irotate|"
+              r"reb_simulation_move_to_(?:hel|com)|reb_simulation_(?:imul|iadd|isub)|reb_simulation_com(?:_range)?|reb_particle_com_of_pair|reb_hash")
+SIM_METHOD_RE = r"^(units|update_units|equal_units|convert_particle_units|move_to_com|move_to_hel|rotate|multiply|__i?(add|sub|mul|truediv|div)__|__rmul__)$"
+
+
+def entry_points(repo):
+    """public functions / methods that reach the C20 mechanisms, extracted from src/rebound.h (DLLEXPORT) and the Python classes"""
+    import re
+    out = []
+    hdr = open(os.path.join(repo, "src", "rebound.h")).read()
+    for ln in hdr.splitlines():
+        if ln.startswith("DLLEXPORT"):
+            m = re.search(r"\b(" + C_ENTRY_RE + r")\s*\(", ln)
+            if m:
+                out.append(m.group(1))
+
+    def methods(fn, cls):
+        tree = ast.parse(open(os.path.join(repo, "rebound", fn)).read())
+        for n in tree.body:
+            if isinstance(n, ast.ClassDef) and n.name == cls:
+                return [m.name for m in n.body if isinstance(m, ast.FunctionDef)]
+        return []
+    out += ["Rotation." + m for m in methods("rotation.py", "Rotation")]
+    out += ["Vec3d." + m for m in methods("vectors.py", "Vec3d") if m in ("rotate", "normalize")]
+    out += ["Particle." + m for m in methods("particle.py", "Particle") if m == "rotate"]
+    import re as _re
+    out += ["Simulation." + m for m in methods("simulation.py", "Simulation") if _re.match(SIM_METHOD_RE, m)]
+    tree = ast.parse(open(os.path.join(repo, "rebound", "units.py")).read())
+    out += ["units." + n.name for n in tree.body if isinstance(n, ast.FunctionDef)]
+    return sorted(set(out))
+
+
 if __name__ == "__main__":
     import sys
     _args = [a for a in sys.argv[1:] if not a.startswith("--")]
